@@ -26,6 +26,8 @@ def sentinel(kind, n, which):
     base = 1 if which == "A" else 2
     if kind == "str":
         m = "zq%s%dx" % (which, n)
+        if which == "B" and n % 2 == 0:
+            return (m, m)          # a plain value: the SQL must not depend on *whether* metacharacters occur
         return ("' OR 1=1; -- %s %%_\\ \"" % m, m)
     if kind == "int":
         v = base * 1000000 + 7 * n + 13
